@@ -21,6 +21,14 @@ add("C01", "exploration",
     "inside try/catch may only change their addressed slots; every pure builtin applied to a bound variable must leave it unchanged.",
     "Trusted: the Python model (deepcopy at every binding), nlrun snapshot/serialiser, Hypothesis. Integers small, strings ASCII.",
     "DESIGN.md §3 C01")
+add("C05", "exploration",
+    "model-based property testing: scope-aware Hypothesis program generator vs an independent reference interpreter of the documented rules",
+    "Generated programs over the whole listed vocabulary (sequencing, if, while, multi-clause for with <- / <<- / := / guards, yield, "
+    "yield k: v, into, counted and valued break/continue, return through loops, try/catch/throw, and/or/coalesce, lambdas with defaults "
+    "and splats, closures escaping and per iteration, shadowing, switch arms, eval, deliberate undeclared/redeclared names and wrong "
+    "argument counts) must give the same value, printed output and raised/not-raised outcome as the reference interpreter.",
+    "Trusted: the reference interpreter (lang.py, ~450 lines, rules in DESIGN.md Appendix A), the printer, Hypothesis. Error texts never compared.",
+    "DESIGN.md §3 C05")
 add("C06", "exploration",
     "property-based testing (Hypothesis) against a Python-int reference model; operands produced in several representations",
     "Generated (operator, operands, production form) cases are evaluated by the real interpreter and compared with CPython "
